@@ -388,7 +388,7 @@ def run(ctx):
         "contract (distance to the nearest other row); jax.scipy gammaln is uninterpreted",
         "the list/real-number development (thm/C08Thm.v) and the MathComp development (thm/C08MxThm.v) are not formally connected: "
         "orthogonality is used in its bilinear form over lists and proved from the entry-wise form over any real closed field",
-        "uniqueness of the minimiser is proved (C08_objective_min_unique, C08_nn_fitted_follow_permutation); its existence is proved in latent coordinates for the generated loss (C17_loss_has_unique_minimiser) and not carried over to the function-space MathComp objective",
+        "uniqueness of the minimiser is proved (C08_objective_min_unique, C08_nn_fitted_follow_permutation); and so is its existence at R (C08_nn_fitted_values_well_defined)",
     ]
     gen, funcs = {}, []
     ok = True
@@ -595,7 +595,7 @@ def run(ctx):
                        "predictions, time derivative) with the a-posteriori optimiser bound; distinct_nontrivial = (estimator, type) x 4 "
                        "transformation kinds" % (scales,))
     ctx.cov["level_note"] = ("proof for the isometry / scaling / time-axis / permutation laws of the inference problem (world A + MathComp); "
-                             "fitted values follow the permutation whenever minimisers exist (C08_fitted_follow_permutation; uniqueness proved; existence proved for the latent-coordinate loss in C17, not bridged to the matrix form) "
+                             "fitted values follow the permutation whenever minimisers exist (C08_fitted_follow_permutation; existence and uniqueness proved at R for the full model: C08_nn_fitted_values_well_defined) "
                              "; the scale clause for the DimensionalityEstimator's fitted values is a KNOWN "
                              "FINDING (key C08|DimensionalityEstimator|scale|fitted-values-not-equivariant: the k-NN Poisson term is compensated "
                              "only by a latent-dependent shift, theorem C08_poisson_term_scale) - its nn distances, ls, mu_dens, Gram matrices do "
